@@ -377,6 +377,9 @@ func (inv *Invoice) validatePrecedingData(o *CorrectionOptions, cd *tax.Correcti
 	for _, k := range cd.Stamps {
 		var s *head.Stamp
 		for _, row := range o.Stamps {
+			if row == nil {
+				continue
+			}
 			if row.Provider == k {
 				s = row
 				break
